@@ -3,7 +3,7 @@
    weights with positive total, all admissible parameters. *)
 From Coq Require Import Reals List Lra.
 From ADV Require Import Base.Num C16.Model C16.ModelHmm C16.Spec C16.ProofsMax C16.ProofsEM C16.ProofsModel
-  C16.ProofsBW C16.ProofsBW2 C16.ProofsBW3.
+  C16.ProofsBW C16.ProofsBW2 C16.ProofsBW3 C16.ProofsClamp.
 Import ListNotations.
 Open Scope R_scope.
 
@@ -199,3 +199,23 @@ Proof.
   simpl. split; [intros i _; lra|]. split; [lra|]. split; [intros i _; lra|].
   unfold bw_lik. rewrite gsum_R. simpl. unfold bw_alpha. simpl. unfold c_step, tabn. simpl. lra.
 Qed.
+
+(* (1') the SigmaMin clamp as coded: normal.go's updateEstimate (model [normal_update], read over R) compares the
+   STANDARD DEVIATION with SigmaMin and returns max(sqrt(E[x^2] - E[x]^2), SigmaMin) — exactly the sigma* of
+   normal_estimate_is_constrained_maximiser; the float instance of the same text is replayed bit-exactly. *)
+Theorem normal_update_returns_clamped_std_dev : forall smin acc mu sg,
+  normal_update NumR smin acc = Some (mu, sg) ->
+  let s1 := (0 + sum_m acc) / (0 + sum_g acc) in
+  let s2 := (0 + sum_s acc) / (0 + sum_g acc) in
+  mu = s1 /\ sg = Rmax (sqrt (s2 - s1 * s1)) smin /\ 0 < sg.
+Proof. exact normal_update_clamps_std_dev. Qed.
+
+(* (2'') normal components inside EM: with responsibilities r as weights, the clamped normal estimate satisfies the
+   component hypothesis of em_step_never_decreases_likelihood against every (mu, sigma >= SigmaMin), densities included *)
+Theorem em_normal_component_mstep_is_exact : forall n (r x : nat -> R) smin mu sigma,
+  (forall l, (l < n)%nat -> 0 <= r l) -> 0 < rsum n r -> 0 <= smin ->
+  let d := map (fun l => (r l, x l)) (seq 0 n) in
+  0 < mle_sigma smin d -> 0 < sigma -> smin <= sigma ->
+  comp_ll n r (fun l => normal_pdf mu sigma (x l))
+  <= comp_ll n r (fun l => normal_pdf (mle_mu d) (mle_sigma smin d) (x l)).
+Proof. exact em_normal_mstep_is_exact. Qed.
